@@ -122,8 +122,27 @@ def canon(m) -> str:
     """canonical text of a product in the model's output format (without the `new=` field)"""
     idx = {id(a): i for i, a in enumerate(m.atoms)}
     atoms = ",".join(atom_tok(a) for a in m.atoms)
-    bonds = ",".join(f"{idx[id(b.a1)]}-{idx[id(b.a2)]}:{bond_tok(b)}" for b in m.bonds)
+    bonds = ",".join(sorted(f"{min(idx[id(b.a1)], idx[id(b.a2)])}-{max(idx[id(b.a1)], idx[id(b.a2)])}:{bond_tok(b)}" for b in m.bonds))
     return f"ok atoms={atoms} bonds={bonds} charge={int(m.charge)} mult={int(m.mult)}"
+
+
+def canon_model(out: str) -> str:
+    """the model's answer in the same canonical form: bonds as an unordered set of unordered pairs"""
+    head = out.rsplit(" new=", 1)[0]
+    parts = head.split(" ")
+    res = []
+    for p in parts:
+        if p.startswith("bonds="):
+            items = [x for x in p[6:].split(",") if x]
+            norm = []
+            for it in items:
+                ends, data = it.split(":", 1)
+                a, b = ends.split("-")
+                norm.append(f"{min(int(a), int(b))}-{max(int(a), int(b))}:{data}")
+            res.append("bonds=" + ",".join(sorted(norm)))
+        else:
+            res.append(p)
+    return " ".join(res)
 
 
 def label_graph(m):
@@ -165,22 +184,33 @@ def witness_frag(name, charge=0):
 
 
 def detect_variants(ml, combine_mod):
-    out = {}
+    """which variant of each known defect does the code exhibit now?  A witness that cannot even run counts as
+    `repaired` (the model of the demanded behaviour), so that the seeded stream reports the failure with a replay."""
+    out = {"charge": "repaired", "rng": "repaired", "combine": "repaired"}
     A, Bm = build(ml, witness_frag("p", charge=1)), build(ml, witness_frag("q"))
-    r = ml.Molecule.join(A, Bm, 2, 2, dist=1.5, charge=0)
-    out["charge"] = "repaired" if r.charge == 0 else "shipped"
-    # parallel attachment vectors → antiparallel branch of the rotation
-    np.random.seed(11)
-    r1 = ml.Molecule.join(A, Bm, 2, 2, dist=1.5)
-    np.random.seed(12)
-    r2 = ml.Molecule.join(A, Bm, 2, 2, dist=1.5)
-    out["rng"] = "repaired" if np.array_equal(r1.coords, r2.coords) else "shipped"
+    try:
+        r = ml.Molecule.join(A, Bm, 2, 2, dist=1.5, charge=0)
+        out["charge"] = "repaired" if r.charge == 0 else "shipped"
+    except Exception:  # noqa: BLE001
+        pass
+    try:
+        # parallel attachment vectors → antiparallel branch of the rotation
+        np.random.seed(11)
+        r1 = ml.Molecule.join(A, Bm, 2, 2, dist=1.5)
+        np.random.seed(12)
+        r2 = ml.Molecule.join(A, Bm, 2, 2, dist=1.5)
+        out["rng"] = "repaired" if np.array_equal(r1.coords, r2.coords) else "shipped"
+    except Exception:  # noqa: BLE001
+        pass
     core = {"name": "k", "elements": ["C", "Unknown", "N", "Unknown"], "labels": ["ka0", "kap1", "ka2", "kap3"], "ap": [1, 3],
             "coords": [[0, 0, 0], [0, 0, 1.0], [1.5, 0, 0], [2.5, 0.5, 0]], "edges": [[0, 1, "Single"], [0, 2, "Single"], [2, 3, "Single"]],
             "charge": 0, "mult": 1}
-    res = run_assemble(ml, combine_mod, core, [3, 1], [witness_frag("s"), witness_frag("t")])
-    exp = expected_product_graph(core, [3, 1], [witness_frag("s"), witness_frag("t")])
-    out["combine"] = "repaired" if (not isinstance(res, str) and label_graph(res) == exp) else "shipped"
+    subs = [witness_frag("s"), witness_frag("t")]
+    sorted_ok = run_assemble(ml, combine_mod, core, [1, 3], subs)
+    res = run_assemble(ml, combine_mod, core, [3, 1], subs)
+    if not isinstance(sorted_ok, str) and label_graph(sorted_ok) == expected_product_graph(core, [1, 3], subs):
+        if isinstance(res, str) or label_graph(res) != expected_product_graph(core, [3, 1], subs):
+            out["combine"] = "shipped"
     return out
 
 
@@ -204,10 +234,15 @@ def join_case(ctx, B, ml, fa, fb, args, variants, sample=False):
     kw["optimize_rotation"] = args["opt"]
     snapA, snapB = snapshot(A), snapshot(Bm)
     seed1, seed2 = rng.below(2 ** 31), rng.below(2 ** 31)
-    np.random.seed(seed1)
-    res = ml.Molecule.join(A, Bm, i1, i2, **kw)
-    np.random.seed(seed2)
-    res2 = ml.Molecule.join(A, Bm, i1, i2, **kw)
+    try:
+        np.random.seed(seed1)
+        res = ml.Molecule.join(A, Bm, i1, i2, **kw)
+        np.random.seed(seed2)
+        res2 = ml.Molecule.join(A, Bm, i1, i2, **kw)
+    except Exception as e:  # noqa: BLE001  (a valid join must not raise)
+        ctx.violation("C12:join-raises", f"join of two valid fragments raised {type(e).__name__}: {e}", tag)
+        ctx.case(["join", fa, fb, args], nontrivial=True)
+        return
     coords = np.array(res.coords, dtype=float)
     ctx.count("join." + args["pose"])
     ctx.count("join.optimize_rotation=" + str(bool(args["opt"])))
@@ -251,7 +286,7 @@ def join_case(ctx, B, ml, fa, fb, args, variants, sample=False):
     ov = lambda x: "-" if x is None else str(int(x))
 
     def cb_topo(line, out, impl=canon(res)):
-        m = out.rsplit(" new=", 1)[0]
+        m = canon_model(out) if out.startswith("ok ") else out
         if m != impl:
             ctx.disagree("join: atoms/bonds/charge/mult differ from the model", {"tag": tag, "request": line[:1500]}, impl, out[:1500])
     B.add(f"join {cv} {frag_tokens(A)} {frag_tokens(Bm)} {i1} {i2} {NEWDATA} {ov(args['charge'])} {ov(args['mult'])}", cb_topo)
@@ -413,7 +448,7 @@ def combine_case(ctx, B, ml, cb, core_j, aps, subs_j, variants, sample=False):
            " ".join(f"{frag_tokens(s)} {sj['ap'][0]}" for s, sj in zip(subs, subs_j)))
 
     def cb_(line, out, impl=impl):
-        m = out.rsplit(" new=", 1)[0]
+        m = canon_model(out) if out.startswith("ok ") else out
         if m != impl:
             ctx.disagree("combine loop: product differs from the model", {"tag": tag, "request": line[:1500]}, impl[:1500], out[:1500])
     B.add(req, cb_)
@@ -458,6 +493,8 @@ def run(ctx):
         "atoms of one structure are distinct objects and two joined structures share no atom (object model, C06)",
     ]
     ctx.proof(props=["Molli.Props.C12"])
+    if not ctx.quick():
+        G.leanchecker(ctx, ["Molli.Props.C12", "Molli.Lemmas.JoinGeom", "Molli.Lemmas.Join"])
     rng = ctx.rng
     variants = detect_variants(ml, cb)
     for k, v in variants.items():
@@ -472,7 +509,7 @@ def run(ctx):
             combine_case(ctx, B, ml, cb, r["core"], r["aps"], r["subs"], variants)
             ctx.count("corpus.combine")
     q = ctx.quick()
-    njoin = 90 if q else 2500
+    njoin = 250 if q else 15000
     for i in range(njoin):
         ctx.check_deadline()
         pose = rng.weighted([("general", 6), ("parallel", 2), ("antiparallel", 2)])
@@ -488,7 +525,7 @@ def run(ctx):
         if len(B.items) > 400:
             B.run(ctx)
     B.run(ctx)
-    ncomb = 40 if q else 1200
+    ncomb = 100 if q else 6000
     for i in range(ncomb):
         ctx.check_deadline()
         k = rng.range(1, 3)
